@@ -704,6 +704,47 @@ pub proof fn lemma_archs_eq_symmetric<R: Registry>(a: Archetypes<R>, b: Archetyp
 }
 """
 
+ARCHS_SER_PRELUDE = r"""
+// ---- R9/A10: the serde Serializer the table set is written to, and the borrowing table iterator
+#[verifier::external_body]
+pub struct VxSeqSerializer { _p: () }
+#[verifier::external_body]
+pub struct VxSeqOk { _p: () }
+pub struct VxTableTok { pub id: int }
+/// the abstract token of a serialized table (K-deser-arch decides the element encoding, bounded)
+pub uninterp spec fn vx_ser_table<R: Registry>(t: archetype::Archetype<R>) -> VxTableTok;
+impl VxSeqOk { pub uninterp spec fn elems(&self) -> Seq<VxTableTok>; }
+#[verifier::external_body]
+#[verifier::accept_recursive_types(R)]
+pub struct VxTableRefIter<'a, R: Registry> { p: PhantomData<&'a R> }
+impl<'a, R: Registry> VxTableRefIter<'a, R> {
+    pub uninterp spec fn rest(&self) -> Seq<archetype::Archetype<R>>;
+    /// A1: `Iterator::filter(p)`: the items `p` accepts, in order
+    #[verifier::external_body]
+    pub fn filter<F: Fn(&&'a archetype::Archetype<R>) -> bool>(self, f: F) -> (r: VxTableRefIter<'a, R>)
+        requires forall|t: &&'a archetype::Archetype<R>| #[trigger] f.requires((t,)),
+        ensures r.rest().len() <= self.rest().len(),
+                forall|j: int| 0 <= j < r.rest().len() ==> exists|i: int| 0 <= i < self.rest().len() && self.rest()[i] == #[trigger] r.rest()[j],
+                (forall|t: &&'a archetype::Archetype<R>| f.ensures((t,), true)) ==> r.rest() == self.rest()
+    { unimplemented!() }
+}
+impl VxSeqSerializer {
+    /// serde `Serializer::is_human_readable()`: any answer
+    #[verifier::external_body]
+    pub fn is_human_readable(&self) -> (r: bool) { unimplemented!() }
+    /// serde `Serializer::collect_seq(iter)`: one element per item of the iterator, in order
+    #[verifier::external_body]
+    pub fn collect_seq<'a, R: Registry>(self, it: VxTableRefIter<'a, R>) -> (r: Result<VxSeqOk, VxErr>)
+        ensures r is Ok ==> r->Ok_0.elems() == Seq::new(it.rest().len(), |j: int| vx_ser_table(it.rest()[j])) { unimplemented!() }
+}
+impl<R: Registry> Archetypes<R> {
+    /// R14/A3: `Archetypes::iter()` (hashbrown RawIter): every stored table once, in some order
+    #[verifier::external_body]
+    pub fn vx_iter<'a>(&'a self) -> (r: VxTableRefIter<'a, R>)
+        ensures exists|ks: Seq<archetype::IdentifierRef<R>>| self.raw_archetypes.enumerates(ks) && r.rest() == Seq::new(ks.len(), |j: int| self@[ks[j]]) { unimplemented!() }
+}
+"""
+
 EQ_STEP = r'''proof {
                 let k = vx_keys1@[vx_i1 as int];
                 assert(vx_keys1@.contains(k));
@@ -1177,6 +1218,15 @@ def build(only=None, name="archs"):
            props=["C11", "C13", "C06", "C01"]),
     ])
 
+
+    u.text(ARCHS_SER_PRELUDE)
+    u.impl("impl<R> Archetypes<R> where R: Registry", [
+        Fn(ASD, r"^impl<R> Serialize for Archetypes<R>", "serialize", ret="r", vis="pub", generics="", where="",
+           params="&self, serializer: VxSeqSerializer", ret_type="Result<VxSeqOk, VxErr>",
+           rewrites=[(r"\bself\.iter\(\)", "self.vx_iter()", "R14: Archetypes::iter() over the hashbrown table -> assumed-contract iterator (every stored table once)")],
+           ensures=[("C06.archetypes.serialize_every_table", "r is Ok ==> exists|ks: Seq<archetype::IdentifierRef<R>>| self.raw_archetypes.enumerates(ks) && r->Ok_0.elems() == Seq::new(ks.len(), |j: int| vx_ser_table(self@[ks[j]]))")],
+           props=["C06", "C01"]),
+    ])
     AE = "src/archetypes/impl_eq.rs"
     EQIMPL = r"^impl<R> cmp::PartialEq for Archetypes<R>"
     u.impl("impl<R> Archetypes<R> where R: Registry", [
